@@ -125,5 +125,6 @@ instance : Scalar Float where
   min a b := if a.isNaN then b else if b.isNaN then a else if b < a then b else a
   max a b := if a.isNaN then b else if b.isNaN then a else if a < b then b else a
   fmod := floatFmod
+  pi := 3.141592653589793
 
 end Kurbo
